@@ -1253,6 +1253,32 @@ def build_kernels(D):
               lambda a, e: raw(_mm.matmul_csr_dense_dense(a[0], a[1], complex(*e[0]), a[2].copy())),
               lambda c, e: "vO vD (G_matmul_csr_dense %s %s %s (Some %s))" % (
                   c[0], c[1], cG(e[0]), c[2]), "optD"))
+    K.append(("dia.from_csr", ["CSR"], None,
+              lambda a, e: raw(_dia.from_csr(a[0])),
+              lambda c, e: "vA (G_dia_from_csr %s)" % c[0], "A"))
+    _inn, _exp = _m("inner"), _m("expect")
+
+    def flag(rng):
+        return (rng.random() < 0.5,)
+    K.append(("inner_csr", ["CSR", "CSR"], flag,
+              lambda a, e: gscalar(_inn.inner_csr(a[0], a[1], e[0])),
+              lambda c, e: "G_inner_csr %s %s %s" % (c[0], c[1], cbool(e[0])), "optG"))
+    K.append(("inner_op_csr", ["CSR", "CSR", "CSR"], flag,
+              lambda a, e: gscalar(_inn.inner_op_csr(a[0], a[1], a[2], e[0])),
+              lambda c, e: "G_inner_op_csr %s %s %s %s" % (c[0], c[1], c[2], cbool(e[0])), "optG"))
+    K.append(("inner_op_data[csr]", ["CSR", "CSR", "CSR"], flag,
+              lambda a, e: gscalar(_inn.inner_op_data(a[0], a[1], a[2], e[0])),
+              lambda c, e: "G_inner_op_via_product %s %s %s %s" % (c[0], c[1], c[2], cbool(e[0])),
+              "optG"))
+    K.append(("expect_csr", ["CSR", "CSR"], None,
+              lambda a, e: gscalar(_exp.expect_csr(a[0], a[1])),
+              lambda c, e: "G_expect_csr %s %s" % (c[0], c[1]), "optG"))
+    K.append(("expect_data[csr,ket]", ["CSR", "CSR"], None,
+              lambda a, e: gscalar(_exp.expect_data(a[0], a[1])),
+              lambda c, e: "G_expect_via_inner %s %s" % (c[0], c[1]), "optG"))
+    K.append(("expect_super_csr", ["CSR", "CSR"], None,
+              lambda a, e: gscalar(_exp.expect_super_csr(a[0], a[1])),
+              lambda c, e: "G_expect_super_csr %s %s" % (c[0], c[1]), "optG"))
     _kron = _m("kron")
     K.append(("kron_csr", ["CSR", "CSR"], None,
               lambda a, e: raw(_kron.kron_csr(a[0], a[1])),
@@ -1293,8 +1319,10 @@ def correspondence(ctx, D, rng, ncases):
     dk = dist.setdefault("corr_kernel", {})
     dv = dist.setdefault("corr_variant", {})
     weight = {"add_csr": 6, "isequal_dia": 3, "reshape_csr": 6, "reshape_dense": 2,
-              "column_stack_csr": 2, "kron_csr": 3, "matmul_csr": 6,
-              "matmul_csr_dense_dense": 3, "matmul_csr_dense_dense[out]": 4, "csr.from_dense": 2, "csr.from_dia": 2, "add_dense": 2,
+              "column_stack_csr": 2, "kron_csr": 3, "dia.from_csr": 3, "matmul_csr": 6,
+              "matmul_csr_dense_dense": 3, "matmul_csr_dense_dense[out]": 4,
+              "inner_csr": 3, "inner_op_csr": 3, "inner_op_data[csr]": 2, "expect_csr": 4,
+              "expect_data[csr,ket]": 2, "expect_super_csr": 3, "csr.from_dense": 2, "csr.from_dia": 2, "add_dense": 2,
               "dia.from_dense[auto_tidyup=False]": 2}
     K = [k for k in K for _ in range(weight.get(k[0], 1))]
     for it in range(ncases):
@@ -1308,6 +1336,23 @@ def correspondence(ctx, D, rng, ncases):
         malformed = False
         if name == "kron_csr":
             shapes = [(rng.randint(1, 4), rng.randint(1, 4)), (rng.randint(1, 4), rng.randint(1, 4))]
+        elif name in ("inner_csr", "inner_op_csr", "inner_op_data[csr]", "expect_csr",
+                      "expect_data[csr,ket]", "expect_super_csr"):
+            n_ = rng.choice([1, 1, 2, 3, 4, 5])
+            bad = 1 if rng.random() < 0.08 else 0
+            if name == "inner_csr":
+                shapes = [rng.choice([(1, n_), (n_, 1)]), (n_ + bad, 1)]
+            elif name.startswith("inner_op"):
+                m_ = rng.choice([1, 2, 3, 4])
+                shapes = [rng.choice([(1, n_), (n_, 1)]), (n_, m_), (m_ + bad, 1)]
+            elif name == "expect_csr":
+                shapes = [(n_, n_), rng.choice([(n_ + bad, 1), (n_ + bad, n_ + bad)])]
+            elif name == "expect_data[csr,ket]":
+                shapes = [(n_, n_), (n_ + bad, 1)]
+            else:
+                q = rng.choice([1, 2, 3])
+                shapes = [(q * q, q * q), (q * q + bad, 1)]
+            malformed = bool(bad)
         elif name.startswith("matmul_csr"):
             k = rng.choice([1, 1, 2, 3, 4, 6])
             inner = shape[1] + (1 if rng.random() < 0.08 else 0)
@@ -1612,7 +1657,7 @@ def run(ctx):
 
     vlib.standard_proof_step(ctx, ["Props/C01.vo"], ["Props/C01.v"], search)
 
-    ncorr = 640 if ctx.quick else 6000
+    ncorr = 960 if ctx.quick else 8000
     ctx.log("correspondence: %d kernel cases" % ncorr)
     phase(ctx, "correspondence", lambda: correspondence(ctx, D, rng, ncorr))
     ctx.log("dispatcher table validation")
